@@ -1,6 +1,7 @@
 import SakuraVerif.Driver.SmfOps
 import SakuraVerif.Driver.DumpOps
 import SakuraVerif.Driver.LenOps
+import SakuraVerif.Driver.MsgOps
 open Sakura Sakura.Wire Sakura.Driver
 
 def handle (line : String) : String :=
@@ -15,6 +16,8 @@ def handle (line : String) : String :=
   | ["calc_length", str, tb, d] => s!"ok out={Sakura.Len.calcLength (parseInt tb) (parseInt d) (text str)}"
   | ["lenspec", tb, d, syn] => s!"ok out={lenSpec (parseInt tb) (parseInt d) syn}"
   | ["lenspec2", tb, dsyn, syn] => s!"ok out={lenSpec (parseInt tb) (lenSpec (parseInt tb) (parseInt tb) dsyn) syn}"
+  | ["spec.c15", name, ch, dev, args, txt, bin] =>
+      "ok " ++ specC15 (String.ofList ((text name).map Char.ofNat)) (parseNat ch) (parseNat dev) (parseIntList args) (text txt) (unhex bin)
   | _ => "bad-op"
 
 partial def loop (h : IO.FS.Stream) (out : IO.FS.Stream) : IO Unit := do
